@@ -30,6 +30,11 @@ from pysmt.fnode import FNode
 
 # Identifiers accepted unquoted by the human-readable parser (pysmt.parsing)
 _HR_IDENTIFIER = re.compile(r"^[A-Za-z_][A-Za-z0-9_]*$")
+# Identifiers with a fixed meaning in that grammar: symbols with these names
+# are printed quoted
+_HR_KEYWORDS = frozenset(["False", "True", "xor", "bv2nat", "bvcomp", "ROR", "ROL",
+                          "ZEXT", "SEXT", "ToReal", "Int", "Real", "Bool",
+                          "forall", "exists", "Array", "BV"])
 
 
 class HRPrinter(TreeWalker):
@@ -85,7 +90,7 @@ class HRPrinter(TreeWalker):
 
     def walk_symbol(self, formula: FNode):
         name = formula.symbol_name()
-        if _HR_IDENTIFIER.match(name) is None:
+        if _HR_IDENTIFIER.match(name) is None or name in _HR_KEYWORDS:
             # Names such as a-b or x.y are simple symbols in SMT-LIB but
             # not identifiers of the human-readable grammar (a-b would
             # be read back as a subtraction): always quote them
